@@ -529,7 +529,6 @@ structure Done (r : Resp D) (W Z : Bytes) : Prop where
   req : r.ostreamRequested = true
   fin : r.finalized = true
   gz : GzDone r W Z
-  copy : CopyDone r Z
   calls : FinalCalls r.trace.sends (filterOf r.mode.isRaw Z)
   bytesAll : r.trace.bytes = filterOf r.mode.isRaw Z
   inv : r.dev.Inv r.trace Z
@@ -537,7 +536,7 @@ structure Done (r : Resp D) (W Z : Bytes) : Prop where
   mode : r.dev.rawMode = r.mode.isRaw
   eofs : r.trace.eofs = 1
   hdr : r.mode.isRaw = false → ∃ H, r.sentHeaders = some H ∧ HdrShape r.trace H
-  rawHdr : r.mode.isRaw = true → r.gz = none ∧ r.sentHeaders = none ∧ RawOk r.dev r.trace
+  rawHdr : r.mode.isRaw = true → r.gz = none ∧ r.sentHeaders = none ∧ Z = W ∧ ((rawNext {} W).done = true → RawOk r.dev r.trace)
 
 theorem FinalCalls.of_close (k : List (Bytes × Bool)) (x : Bytes) (h : (k.filter (·.2)).length = 0) :
     FinalCalls (k ++ [(x, true)]) ((k.map (·.1)).flatten ++ x) :=
@@ -594,8 +593,8 @@ theorem closeCopy_spec (r1 : Resp D) (W Z1 T1 : Bytes) (g1 : GzDone r1 W Z1) (c1
     · simp only [CopyDone, cc]; exact ⟨k2, rfl⟩
 
 /-- `response::finalize()` on an open response -/
-theorem Open.finalize {r : Resp D} {W : Bytes} (o : Open r W) (hraw : r.mode.isRaw = true → (rawNext {} W).done = true) :
-    ∃ Z, Done r.finalize W Z ∧ Frame r { r.finalize with finalized := r.finalized } ∧ (∃ e : Trace, r.finalize.trace = r.trace ++ e) ∧
+theorem Open.finalize {r : Resp D} {W : Bytes} (o : Open r W) :
+    ∃ Z, Done r.finalize W Z ∧ CopyDone r.finalize Z ∧ Frame r { r.finalize with finalized := r.finalized } ∧ (∃ e : Trace, r.finalize.trace = r.trace ++ e) ∧
       r.finalize.gz.isSome = r.gz.isSome ∧ r.finalize.copy.isSome = r.copy.isSome := by
   unfold Resp.finalize
   rw [if_neg (by rw [o.notFin]; exact Bool.false_ne_true), Resp.requestStream_of_requested r o.req]
@@ -610,13 +609,11 @@ theorem Open.finalize {r : Resp D} {W : Bytes} (o : Open r W) (hraw : r.mode.isR
     have hn := gn1 (o.rawNoGz hm)
     have : r2.gz = none := by rw [gs2]; exact hn
     simpa [GzDone, this] using g2
-  have hcl := Dev.close_spec r2.dev r2.trace Z1 d2.good (fun hm => by
-    have hm' : r.mode.isRaw = true := by rw [← hrawm, ← d2.mode]; exact hm
-    rw [hZ1 hm']; exact hraw hm')
+  have hcl := Dev.close_spec r2.dev r2.trace Z1 d2.good
   obtain ⟨l1, l2, l3, l4, l5, l6, l7, l8, l9, l10⟩ := hcl
   have hdm : r2.dev.rawMode = r.mode.isRaw := by rw [d2.mode, hrawm]
   unfold Resp.closeDev
-  refine ⟨Z1, ⟨by show r2.ostreamRequested = true; rw [f2.requested, f1.requested]; exact o.req, rfl, g2, c2, ?_, ?_, l5, l6, ?_, l3, ?_, ?_⟩,
+  refine ⟨Z1, ⟨by show r2.ostreamRequested = true; rw [f2.requested, f1.requested]; exact o.req, rfl, g2, ?_, ?_, l5, l6, ?_, l3, ?_, ?_⟩, c2,
     ⟨by show r2.mode = r.mode; rw [f2.mode, f1.mode], by show r2.written = r.written; rw [f2.written, f1.written], rfl,
      by show r2.ostreamRequested = _; rw [f2.requested, f1.requested], by show r2.headers = _; rw [f2.headers, f1.headers],
      by show r2.copyToCache = _; rw [f2.copyToCache, f1.copyToCache], by show r2.pageCompressionUsed = _; rw [f2.pcu, f1.pcu],
@@ -660,10 +657,114 @@ theorem Open.finalize {r : Resp D} {W : Bytes} (o : Open r W) (hraw : r.mode.isR
     exact ((h2.extend (hdrs_ext hh1')).extend (hdrs_ext hh2')).extend (hdrs_ext hh3')
   · intro hm
     have hm' : r.mode.isRaw = true := by rw [← hrawm]; exact hm
-    refine ⟨by show r2.gz = none; rw [gs2]; exact gn1 (o.rawNoGz hm'), by show r2.sentHeaders = none; rw [f2.sent, f1.sent]; exact o.rawSent hm', l7⟩
+    refine ⟨by show r2.gz = none; rw [gs2]; exact gn1 (o.rawNoGz hm'), by show r2.sentHeaders = none; rw [f2.sent, f1.sent]; exact o.rawSent hm', hZ1 hm',
+      fun hd => l7 (fun _ => by rw [hZ1 hm']; exact hd)⟩
   · obtain ⟨x1, hx1⟩ := e1
     obtain ⟨x2, hx2⟩ := e2
     obtain ⟨x3, hx3⟩ := l10
     exact ⟨x1 ++ x2 ++ x3, by show (r2.dev.close traceIf r2.trace).2 = _; rw [hx3, hx2, hx1]; simp [List.append_assoc]⟩
+
+/-! ### after finalize -/
+
+/-- an operation on the device alone after the response was finalized (`setbuf`, `full_asynchronous_buffering`,
+`flush_async_chunk`): at most one more call, with no bytes and no eof -/
+theorem Done.devOp {r : Resp D} {W Z : Bytes} (dn : Done r W Z) (d' : Dev) (k' : Trace)
+    (hstep : ∀ T, r.dev.Inv r.trace T → d'.Inv k' T ∧ Step r.dev d' r.trace k') :
+    Done ({ r with dev := d', trace := k' } : Resp D) W Z ∧ (∃ e : Trace, k' = r.trace ++ e) := by
+  have ⟨hi, hs⟩ := hstep Z dn.inv
+  have ⟨hseal, heofs⟩ := dn.sealed.step hs
+  have hflag := dn.sealed.flag
+  -- the bytes do not change
+  have hbytes : k'.bytes = filterOf r.mode.isRaw Z ∧ (k'.sends = r.trace.sends ∨ k'.sends = r.trace.sends ++ [([], false)]) := by
+    obtain ⟨fed', _, _, i3, i4, _⟩ := hi
+    obtain ⟨Y, hY⟩ := filterOf_append d'.rawMode fed' (d'.vec.take d'.pos)
+    rw [i3, hs.mode, dn.mode] at hY
+    rw [hs.mode, dn.mode] at i4
+    rcases hs.sends with h1 | ⟨bs, h1⟩
+    · refine ⟨?_, Or.inl h1⟩
+      have : k'.bytes = r.trace.bytes := by simp [Trace.bytes, h1]
+      rw [this, dn.bytesAll]
+    · have hb : k'.bytes = r.trace.bytes ++ bs := by simp [Trace.bytes, h1]
+      rw [dn.bytesAll] at hb
+      -- filter Z = k'.bytes ++ Y = filter Z ++ bs ++ Y
+      have : filterOf r.mode.isRaw Z = filterOf r.mode.isRaw Z ++ bs ++ Y := by
+        conv => lhs; rw [hY, ← i4, hb]
+      have hl := congrArg List.length this
+      simp only [List.length_append] at hl
+      have hbs : bs = [] := List.eq_nil_of_length_eq_zero (by omega)
+      subst hbs
+      refine ⟨by rw [hb, List.append_nil], Or.inr ?_⟩
+      rw [h1, hflag]
+  refine ⟨⟨dn.req, dn.fin, dn.gz, ?_, hbytes.1, hi, hseal, by show d'.rawMode = _; rw [hs.mode]; exact dn.mode,
+    by show k'.eofs = 1; rw [heofs]; exact dn.eofs, ?_, ?_⟩, hs.extends⟩
+  · show FinalCalls k'.sends _
+    rcases hbytes.2 with h | h
+    · rw [h]; exact dn.calls
+    · rw [h]; exact dn.calls.snoc
+  · intro hm
+    obtain ⟨H, h1, h2⟩ := dn.hdr hm
+    obtain ⟨e, he⟩ := hs.extends
+    have := hs.hdrs_nonraw (by rw [dn.mode]; exact hm)
+    rw [he] at this
+    exact ⟨H, h1, by show HdrShape k' H; rw [he]; exact h2.extend (hdrs_ext this)⟩
+  · intro hm
+    obtain ⟨h1, h2, h3, h4⟩ := dn.rawHdr hm
+    exact ⟨h1, h2, h3, fun hd => (h4 hd).step hs (Or.inl hflag)⟩
+
+theorem Done.congr {r r' : Resp D} {W Z : Bytes} (dn : Done r W Z) (h1 : r'.ostreamRequested = r.ostreamRequested)
+    (h2 : r'.finalized = r.finalized) (h3 : r'.gz = r.gz) (h5 : r'.dev = r.dev) (h6 : r'.trace = r.trace)
+    (h7 : r'.mode = r.mode) (h8 : r'.sentHeaders = r.sentHeaders) : Done r' W Z := by
+  refine ⟨by rw [h1]; exact dn.req, by rw [h2]; exact dn.fin, ?_, by rw [h6, h7]; exact dn.calls, by rw [h6, h7]; exact dn.bytesAll,
+    by rw [h5, h6]; exact dn.inv, by rw [h5]; exact dn.sealed, by rw [h5, h7]; exact dn.mode, by rw [h6]; exact dn.eofs,
+    by rw [h7, h8, h6]; exact dn.hdr, by rw [h7, h3, h8, h5, h6]; exact dn.rawHdr⟩
+  · unfold GzDone at *; rw [h3]; exact dn.gz
+
+theorem Done.setbuf {r : Resp D} {W Z : Bytes} (dn : Done r W Z) (n : Int) :
+    Done (r.setbuf n) W Z ∧ (∃ e : Trace, (r.setbuf n).trace = r.trace ++ e) := by
+  unfold Resp.setbuf
+  simp only
+  rw [if_pos (show ({ r with requiredBufferSize := if n < 0 then -1 else n } : Resp D).ostreamRequested = true from dn.req)]
+  have d0 : Done ({ r with requiredBufferSize := if n < 0 then -1 else n } : Resp D) W Z := dn.congr rfl rfl rfl rfl rfl rfl rfl
+  generalize (if (if n < 0 then (-1 : Int) else n) < 0 then (if r.mode.isAsync then r.cfg.asyncOutputBuffer else r.cfg.outputBuffer)
+      else (if n < 0 then (-1 : Int) else n).toNat) = size
+  exact d0.devOp _ _ (fun T ht => Dev.setbuf_inv r.dev r.trace T size ht)
+
+theorem Done.setFullBuffering {r : Resp D} {W Z : Bytes} (dn : Done r W Z) (v : Bool) :
+    Done (r.setFullBuffering v) W Z ∧ (∃ e : Trace, (r.setFullBuffering v).trace = r.trace ++ e) := by
+  unfold Resp.setFullBuffering
+  by_cases hc : (r.mode.isAsync && r.ostreamRequested) = true
+  · rw [if_pos hc]
+    have h := dn.devOp _ _ (fun T ht => Dev.setFullBuffering_inv r.dev r.trace T v ht)
+    exact ⟨h.1.congr rfl rfl rfl rfl rfl rfl rfl, h.2⟩
+  · rw [if_neg hc]
+    exact ⟨dn.congr rfl rfl rfl rfl rfl rfl rfl, ⟨[], by simp⟩⟩
+
+theorem Done.asyncWriteResponse {r : Resp D} {W Z : Bytes} (dn : Done r W Z) :
+    Done r.asyncWriteResponse W Z ∧ (∃ e : Trace, r.asyncWriteResponse.trace = r.trace ++ e) := by
+  unfold Resp.asyncWriteResponse
+  have h := dn.devOp _ _ (fun T ht => by
+    have f := Dev.flush_inv r.dev r.trace T ht
+    exact ⟨f.1, f.2.2.2.1⟩)
+  obtain ⟨d1, e, he⟩ := h
+  have hf : ∀ t : Trace, (t ++ [WEv.asyncFlush]).sends = t.sends := by intro t; rw [Trace.sends_append]; simp
+  have hh : ∀ t : Trace, (t ++ [WEv.asyncFlush]).hdrs = t.hdrs := by intro t; rw [Trace.hdrs_append]; simp
+  refine ⟨⟨d1.req, d1.fin, d1.gz, ?_, ?_, ?_, d1.sealed, d1.mode, ?_, ?_, ?_⟩, ⟨e ++ [WEv.asyncFlush], ?_⟩⟩
+  · show FinalCalls ((r.dev.flush traceIf r.trace).2.1 ++ [WEv.asyncFlush]).sends _
+    rw [hf]; exact d1.calls
+  · show ((r.dev.flush traceIf r.trace).2.1 ++ [WEv.asyncFlush]).bytes = _
+    simp only [Trace.bytes, hf]; exact d1.bytesAll
+  · obtain ⟨fed, i1, i2, i3, i4, i5⟩ := d1.inv
+    exact ⟨fed, i1, i2, i3, by show ((r.dev.flush traceIf r.trace).2.1 ++ [WEv.asyncFlush]).bytes = _; simp only [Trace.bytes, hf]; exact i4, i5⟩
+  · show ((r.dev.flush traceIf r.trace).2.1 ++ [WEv.asyncFlush]).eofs = 1
+    simp only [Trace.eofs, hf]; exact d1.eofs
+  · intro hm
+    obtain ⟨H, h1, h2⟩ := d1.hdr hm
+    exact ⟨H, h1, h2.extend rfl⟩
+  · intro hm
+    obtain ⟨h1, h2, h3, h4⟩ := d1.rawHdr hm
+    exact ⟨h1, h2, h3, fun hd => (h4 hd).append_flush⟩
+  · show (r.dev.flush traceIf r.trace).2.1 ++ [WEv.asyncFlush] = r.trace ++ (e ++ [WEv.asyncFlush])
+    have : (r.dev.flush traceIf r.trace).2.1 = r.trace ++ e := he
+    rw [this, List.append_assoc]
 
 end Cppcms.C03
